@@ -26,18 +26,9 @@ def _drive(coro):
     raise RuntimeError('_compute_fair_share suspended on something other than the fake db')
 
 
-class _FakeDB:
-    def __init__(self):
-        self.rows = []
-
-    async def _gen(self):
-        for r in self.rows:
-            yield dict(r)
-
-    def execute_and_fetchall(self, sql, args=None, query_name=None):
-        return self._gen()
-
-    select_and_fetchall = execute_and_fetchall
+def _njobs(cores):
+    """a job count consistent with a core total (n_*_jobs are 32-bit INT columns)"""
+    return min((cores + 249) // 250, 1000)
 
 
 class _FakePool:
@@ -90,36 +81,47 @@ class C11(Prop):
                   'real method by differential runs (ties, zero-ready users, half-integer rounding boundaries, values to 2^40) on every run.')
     level_note = ('Trusted: Lean kernel; the hand-written model FairShare.fairShare agrees with the Python loop only as far as the correspondence '
                   'cases show; Python float `int(free / n + 0.5)` is modelled by exact integer division (agrees for free < 2^52 / n: argued, '
-                  'tested at half-integer boundaries, not proved); the SQL query is replaced by generated rows.')
-    budget = {'quick': 40000, 'thorough': 600000}
+                  'tested at half-integer boundaries, not proved); the demand query is executed by harness/minisql (a MySQL-subset interpreter), not by MySQL; '
+                  'the Lean model starts from the per-user sums.')
+    budget = {'quick': 30000, 'thorough': 500000}
     search_budget = {'quick': 20000, 'thorough': 300000}
-    rule = ('case = (free cores, [(running, ready)] for 0..12 users); values from small/tie-heavy pools, multiples of 250 mcpu and up to 2^40; '
+    rule = ('case = (free cores, [(running, ready)] for 0..12 users, the users\' counters sharded over 1..16 tokens of user_inst_coll_resources '
+            'with negative shards that sum to the totals, rows of other instance collections, users whose shards cancel to zero); values from small/tie-heavy pools, multiples of 250 mcpu and up to 2^40; '
             'free drawn from {<=0, 1..n, a random point of a random segment between breakpoints, half-integer rounding boundaries of the final '
             'division, total demand +-1, more than demand}; non-trivial = free > 0, >= 2 users and demand > free (the loop must stop part-way); '
             'distinct by full case')
-    trusted = ['fake Database.execute_and_fetchall returning the generated rows (the SQL text is not executed)',
+    trusted = ['harness/minisql executes the SQL text of the demand query (GROUP BY / HAVING / SUM / CAST / COALESCE) on generated rows of '
+               'user_inst_coll_resources; real gear.database.Database over harness/minisql/fakepool',
                'IEEE-754: int(free / n + 0.5) equals trunc((2*free + n) / (2n)) for the magnitudes used (<= 2^44)']
-    assumptions = ['running_cores_mcpu and ready_cores_mcpu returned by the query are non-negative integers, one row per user',
+    assumptions = ['per user the token shards of user_inst_coll_resources sum to non-negative counters (C01), a user without jobs has no cores; '
+                   'individual shards may be negative',
                    'free_cores_mcpu is an integer (sum of per-instance integers), |values| <= 2^44 so float division is exact enough']
 
     how = 'unset'
 
     # ---- real code ------------------------------------------------------------------------------
     def setup(self, repo):
+        import asyncio
+        import random as _random
         loader.install(repo)
         for k, v in _ENV.items():
             os.environ.setdefault(k, v)
-        self.db = _FakeDB()
+        # the real gear.database.Database over the MySQL-subset interpreter: the QUERY of _compute_fair_share is executed
+        from .. import minisql
+        from ..minisql import fakepool
+        self.mdb = minisql.from_repo(repo, _random.Random(0), lambda: 1.7e9)
+        self.loop = asyncio.new_event_loop()
+        self.db = self.loop.run_until_complete(fakepool.make_database(self.mdb))
         fn = None
         try:
             import batch.driver.instance_collection.pool as pool_mod
             cls = pool_mod.PoolScheduler
             self.obj = cls.__new__(cls)
             fn = cls._compute_fair_share
-            self.how = 'bound method of the imported PoolScheduler (bare object, fake db)'
+            self.how = 'bound method of the imported PoolScheduler (bare object); real gear Database over minisql executes the query'
         except Exception as e:  # narrower import surface: the same source text, taken by AST (validated fallback)
             fn, self.obj = self._by_ast(repo)
-            self.how = f'method source taken by AST from pool.py and exec-ed (import failed: {type(e).__name__})'
+            self.how = f'method source taken by AST from pool.py and exec-ed (import failed: {type(e).__name__}); query run by minisql'
         self.obj.db = self.db
         self.obj.pool = _FakePool()
         self.fn = fn
@@ -146,32 +148,73 @@ class C11(Prop):
     def extra_coverage(self):
         return {'implementation_reached_by': self.how}
 
+    COLS = ('n_ready_jobs', 'ready_cores_mcpu', 'n_running_jobs', 'running_cores_mcpu')
+
+    @staticmethod
+    def _shards(c):
+        """rows of user_inst_coll_resources for the pool: [user index, token, n_ready_jobs, ready_cores, n_running_jobs, running_cores];
+        a case without explicit shards keeps every user's counters on token 0"""
+        if c.get('rows') is not None:
+            return [list(r) for r in c['rows']]
+        return [[i, 0, _njobs(d), d, _njobs(r), r] for i, (r, d) in enumerate(c['users'])]
+
+    def _totals(self, c):
+        """per-user SUMS over the token shards: (running cores, ready cores, n jobs) -- what the property speaks about"""
+        n = len(c['users'])
+        tot = [[0, 0, 0] for _ in range(n)]
+        for ui, _tok, nr, rc, nrun, runc in self._shards(c):
+            if ui < n:
+                tot[ui][0] += runc
+                tot[ui][1] += rc
+                tot[ui][2] += nr + nrun
+        return tot
+
+    def _users(self, c):
+        return [(r, d) for r, d, _n in self._totals(c)]
+
     def _real(self, c):
-        users = c['users']
-        self.db.rows = [{'user': f'u{i}', 'n_ready_jobs': (d + 249) // 250, 'ready_cores_mcpu': d,
-                         'n_running_jobs': (r + 249) // 250, 'running_cores_mcpu': r} for i, (r, d) in enumerate(users)]
-        res = _drive(self.fn(self.obj, c['free']))
-        return res
+        rows = []
+        for ui, tok, nr, rc, nrun, runc in self._shards(c):
+            rows.append({'user': f'u{ui}', 'inst_coll': 'standard', 'token': tok, 'n_ready_jobs': nr, 'ready_cores_mcpu': rc,
+                         'n_running_jobs': nrun, 'running_cores_mcpu': runc})
+        for ui, tok, coll, nr, rc, nrun, runc in c.get('other') or []:       # other instance collections: must not be counted
+            rows.append({'user': f'u{ui}', 'inst_coll': coll, 'token': tok, 'n_ready_jobs': nr, 'ready_cores_mcpu': rc,
+                         'n_running_jobs': nrun, 'running_cores_mcpu': runc})
+        self.mdb.execute('DELETE FROM user_inst_coll_resources')
+        self.mdb.load_rows('user_inst_coll_resources', rows)
+
+        async def go():
+            import asyncio
+            res = await self.fn(self.obj, c['free'])
+            await asyncio.sleep(0)
+            return res
+        return self.loop.run_until_complete(go())
 
     def impl(self, c):
         res = self._real(c)
-        if not c['users']:
-            return ['none' if not res else f'unexpected users {sorted(res)}']
+        n = len(c['users'])
+        if not n:
+            return ['none']
         out = []
-        for i in range(len(c['users'])):
+        for i in range(n):
             rec = res.get(f'u{i}')
-            out.append('missing' if rec is None else repr(rec['allocated_cores_mcpu']))
+            out.append('0' if rec is None else repr(rec['allocated_cores_mcpu']))   # not listed = nothing allocated
+        extra = sorted(u for u in res if not (u[1:].isdigit() and int(u[1:]) < n) and res[u]['allocated_cores_mcpu'] != 0)
+        if extra:
+            out.append('allocated-to-users-without-jobs:' + ','.join(extra))
         return [' '.join(out)]
 
     def model_lines(self, c):
-        return [' '.join(map(str, [c['free']] + [x for rd in c['users'] for x in rd]))]
+        return [' '.join(map(str, [c['free']] + [x for rd in self._users(c) for x in rd]))]
 
     # ---- the property, on the real output ------------------------------------------------------------
     def oracle(self, c, out):
         if out[0].startswith('IMPL-EXC'):
             return out[0]
-        users = [tuple(u) for u in c['users']]
+        users = self._users(c)
         free = c['free']
+        if any(r < 0 or d < 0 for r, d in users):
+            return None   # inconsistent counters: outside the property's domain
         if not users:
             return None if out[0] == 'none' else out[0]
         toks = out[0].split(' ')
@@ -275,7 +318,61 @@ class C11(Prop):
                         r = r0 + d0        # starts where another one is full
                 users.append([r, d])
             free, _mode = self._free(rng, [tuple(u) for u in users])
-            yield {'free': free, 'users': users}
+            c = {'free': free, 'users': users}
+            if rng.random() < 0.8:
+                c['rows'], c['other'] = self._shard(rng, users)
+            yield c
+
+    @staticmethod
+    def _split(rng, total, k, spread):
+        """k integers (some negative) that sum to total"""
+        parts = [rng.randint(-spread, spread + total) if rng.random() < 0.7 else 0 for _ in range(k - 1)]
+        return parts + [total - sum(parts)]
+
+    def _shard(self, rng, users):
+        """what the triggers leave behind: every user's counters spread over several tokens, individual shards may be negative
+        (a job counted Ready under one token and scheduled under another leaves (-1 ready, +1 running) there); the SUMS are the users' totals"""
+        n_tokens = rng.choice([1, 2, 4, 8, 8, 16])
+        rows = []
+        for i, (r, d) in enumerate(users):
+            k = rng.choice([1, 2, 2, 3, 4]) if n_tokens > 1 else 1
+            toks = rng.sample(range(n_tokens), min(k, n_tokens))
+            k = len(toks)
+            nr, nrun = _njobs(d), _njobs(r)
+            if k > 1 and rng.random() < 0.5 and nr + nrun > 0:
+                # trigger-like: everything submitted on one token, jobs scheduled / finished on the others
+                parts = [[nr + nrun, d + r, 0, 0]] + [[0, 0, 0, 0] for _ in range(k - 1)]
+                left_n, left_c = nrun, r
+                for j in range(1, k):
+                    mn = left_n if j == k - 1 else rng.randint(0, left_n)
+                    mc = left_c if j == k - 1 else (rng.randint(0, left_c) if mn else 0)
+                    if mn == 0 and j == k - 1:
+                        mc = left_c
+                    parts[j] = [-mn, -mc, mn, mc]
+                    left_n -= mn
+                    left_c -= mc
+                cols = list(zip(*parts))
+            else:
+                cols = [self._split(rng, nr, k, 3), self._split(rng, d, k, max(1, d // 2)),
+                        self._split(rng, nrun, k, 3), self._split(rng, r, k, max(1, r // 2))]
+            for j, tok in enumerate(toks):
+                rows.append([i, tok, cols[0][j], cols[1][j], cols[2][j], cols[3][j]])
+        other = []
+        if rng.random() < 0.3:
+            for _ in range(rng.randint(1, 4)):
+                ui = rng.randrange(0, len(users) + 2)
+                row = [ui, rng.randrange(n_tokens), rng.choice(['highmem', 'job-private']), rng.randint(0, 5),
+                       rng.randint(0, 10 ** 6), rng.randint(0, 5), rng.randint(0, 10 ** 6)]
+                if not any(o[:3] == row[:3] for o in other):
+                    other.append(row)
+        # a user whose jobs have all gone: shards cancel out to zero
+        if rng.random() < 0.15 and n_tokens > 1:
+            g = len(users)
+            a, b = rng.sample(range(n_tokens), 2)
+            m = rng.randint(1, 4)
+            other_rows = [[g, a, m, 1000 * m, 0, 0], [g, b, -m, -1000 * m, 0, 0]]
+            rows += other_rows
+        return rows, other
 
     def search_cases(self, rng, n, hint):
         # exhaustive small scope first (1..3 users, values 0..3, free -1..8), then more of the same
@@ -291,7 +388,7 @@ class C11(Prop):
         return small[:n // 2] + list(self.cases(rng, n - min(len(small), n // 2), 'thorough'))
 
     def classify(self, c, out):
-        users = c['users']
+        users = self._users(c)
         free = c['free']
         n = len(users)
         demand = sum(d for _, d in users)
@@ -315,16 +412,29 @@ class C11(Prop):
             tags.append('zero-ready-user')
         if any(max(r, d) >= 2 ** 30 for r, d in users) or abs(free) >= 2 ** 30:
             tags.append('values>=2^30')
+        sh = self._shards(c)
+        per_user = {}
+        for r in sh:
+            per_user[r[0]] = per_user.get(r[0], 0) + 1
+        tags.append('shards/user=1' if all(v == 1 for v in per_user.values()) else 'shards/user>1')
+        if any(r[2] + r[4] <= 0 and (r[2] or r[3] or r[4] or r[5]) for r in sh):
+            tags.append('shard-with-n_ready+n_running<=0')
+        if any(r[3] < 0 or r[5] < 0 for r in sh):
+            tags.append('negative-cores-shard')
+        if c.get('other'):
+            tags.append('rows-of-other-inst-colls')
         nontrivial = free > 0 and n >= 2 and demand > free
         return (json.dumps(c, sort_keys=True) if nontrivial else None, tags)
 
     def finding_key(self, c, msg):
-        return json.dumps({'free': c['free'], 'users': sorted(map(list, c['users']))}, sort_keys=True)
+        return json.dumps({'free': c['free'], 'users': sorted(map(list, self._users(c))), 'rows': c.get('rows'), 'other': c.get('other')},
+                          sort_keys=True)
 
     def shrink(self, c, fails):
-        cur = {'free': c['free'], 'users': [list(u) for u in c['users']]}
+        cur = {'free': c['free'], 'users': [list(u) for u in self._users(c)]}
         if not fails(cur):
-            return c
+            # the failure depends on how the counters are sharded: shrink users / rows, keep the shards
+            return self._shrink_sharded(c, fails)
         cur['users'] = generic_shrink_list(cur['users'], lambda us: fails({'free': cur['free'], 'users': us}))
         # shrink numbers: halve / decrement while it still fails
         changed = True
@@ -351,6 +461,55 @@ class C11(Prop):
                     cur = cand
                     changed = True
                     break
+        return cur
+
+
+    def _shrink_sharded(self, c, fails):
+        cur = json.loads(json.dumps(c))
+        cur['users'] = [list(u) for u in self._users(cur)]
+
+        def drop_user(case, i):
+            d = json.loads(json.dumps(case))
+            del d['users'][i]
+            d['rows'] = [[r[0] - (r[0] > i)] + r[1:] for r in d['rows'] if r[0] != i]
+            d['other'] = [[r[0] - (r[0] > i)] + r[1:] for r in (d.get('other') or []) if r[0] != i]
+            return d
+        changed = True
+        while changed:
+            changed = False
+            if cur.get('other'):
+                d = dict(cur, other=[])
+                if fails(d):
+                    cur, changed = d, True
+                    continue
+            for i in range(len(cur['users'])):
+                d = drop_user(cur, i)
+                if fails(d):
+                    cur, changed = d, True
+                    break
+            if changed:
+                continue
+            # merge two shards of one user
+            rows = cur['rows']
+            for a in range(len(rows)):
+                for b in range(a + 1, len(rows)):
+                    if rows[a][0] == rows[b][0]:
+                        d = json.loads(json.dumps(cur))
+                        m = [rows[a][0], rows[a][1]] + [x + y for x, y in zip(rows[a][2:], rows[b][2:])]
+                        d['rows'] = [r for k, r in enumerate(rows) if k not in (a, b)] + [m]
+                        if fails(d):
+                            cur, changed = d, True
+                            break
+                if changed:
+                    break
+            if changed:
+                continue
+            for f in (cur['free'] // 2, cur['free'] - 1):
+                if 0 < f < cur['free']:
+                    d = dict(cur, free=f)
+                    if fails(d):
+                        cur, changed = d, True
+                        break
         return cur
 
 
